@@ -66,6 +66,23 @@ theorem succ_switch {m : List Ins} {ex : List Exc} (hm : MinLen m) (hwf : WFTarg
     · exact ⟨Or.inl h, h2⟩
     · exact ⟨Or.inr ⟨t, ht, he.symm⟩, h2⟩
 
+/-- Case switch with the payload stated on the SPECIFICATION side: if every switch instruction's
+    encoded offset is the offset at which the disassembly reports a switch payload
+    (`SwitchesHavePayload`, stated with `Spec.Cfg.InsnAt` only — no lookup function and no "none ↦ no
+    targets" default), then that payload `d` exists and the children of the switch block are exactly
+    the next block and the blocks at `idx + 2·c` for the case targets `c` of `d`. -/
+theorem succ_switch_payload {m : List Ins} {ex : List Exc} (hm : MinLen m) (hwf : WFTargets m ex)
+    (hal : Aligned m) (hsp : SwitchesHavePayload m)
+    {b : Block} (hb : b ∈ blocks m ex) {i : Ins} (hl : b.insns.getLast? = some i)
+    (hf : flowOf i.op = Flow.switch) :
+    ∃ d, PayloadAt m ((b.lastIdx : Int) + 2 * i.refOff) d ∧ ∀ s : Nat,
+      (s ∈ (childs m (blocks m ex) b).map (·.2.2) ↔
+        (((s : Int) = ((b.lastIdx + i.len : Nat) : Int) ∨
+          ∃ t ∈ d.targets, (s : Int) = (b.lastIdx : Int) + 2 * t) ∧ s < lenSum m)) := by
+  obtain ⟨d, hd⟩ := hsp (b.lastIdx, i) (last_mem_withOff hb hl) hf
+  refine ⟨d, hd, fun s => ?_⟩
+  rw [succ_switch hm hwf hal hb hl hf, rawTargets_of_payloadAt hm hd]
+
 /-- Case fall-through: the next block. -/
 theorem succ_fall {m : List Ins} {ex : List Exc} (hm : MinLen m) (hwf : WFTargets m ex) (hal : Aligned m)
     {b : Block} (hb : b ∈ blocks m ex) {i : Ins} (hl : b.insns.getLast? = some i)
@@ -117,5 +134,37 @@ example : (blocks exM []).map (fun b => (b.start, (fathers exM (blocks exM []) b
     [(0, [6]), (4, [0]), (6, [0, 4]), (8, [])] := by decide
 example : MinLen exM := by unfold MinLen; decide
 example : Aligned exM := by unfold Aligned; decide
+
+/-! Non-vacuity of the switch case: `packed-switch v0,+6 ; nop ; return-void ; nop ; return-void ;
+    nop ; packed-switch-payload{+4, +5, +4}` (offsets 0 6 8 10 12 / payload at 12, 4-byte aligned):
+    children = fall-through 6, cases 8, 10, 8 (a repeated target only repeats an entry). -/
+def exSw : List Ins :=
+  [⟨6, 0x2b, 6, 0, [], false⟩, ⟨2, 0x00, 0, 0, [], false⟩, ⟨2, 0x0e, 0, 0, [], false⟩,
+   ⟨2, 0x0e, 0, 0, [], false⟩, ⟨20, 0x100, 0, 1, [4, 5, 4], false⟩]
+
+example : (blocks exSw []).map (fun b => (b.start, (childs exSw (blocks exSw []) b).map (·.2.2))) =
+    [(0, [6, 8, 10, 8]), (6, [8]), (8, []), (10, []), (12, [])] := by decide
+example : (blocks exSw []).map (fun b => (b.start, (fathers exSw (blocks exSw []) b).map (·.2.2))) =
+    [(0, []), (6, [0]), (8, [0, 0, 6]), (10, [0]), (12, [])] := by decide
+example : MinLen exSw := by unfold MinLen; decide
+example : Aligned exSw := by unfold Aligned; decide
+example : flowOf 0x2b = Flow.switch := by decide
+example : SwitchesHavePayload exSw := by
+  intro p hp hf
+  have h : p = (0, ⟨6, 0x2b, 6, 0, [], false⟩) := by
+    have : ∀ q ∈ withOff 0 exSw, flowOf q.2.op = Flow.switch → q = (0, ⟨6, 0x2b, 6, 0, [], false⟩) := by decide
+    exact this p hp hf
+  subst h
+  exact ⟨⟨20, 0x100, 0, 1, [4, 5, 4], false⟩, 12, rfl, ⟨exSw.take 4, [], rfl, rfl⟩, Or.inl rfl⟩
+example : WFTargets exSw [] := by
+  intro o ho _
+  have hl : leaders exSw [] = [6, 8, 10, 8, -1, -1] := by decide
+  rw [hl] at ho
+  simp only [List.mem_cons, List.not_mem_nil, or_false] at ho
+  have h : o = 6 ∨ o = 8 ∨ o = 10 := by omega
+  rcases h with rfl | rfl | rfl
+  · exact ⟨_, exSw.take 1, exSw.drop 2, rfl, rfl⟩
+  · exact ⟨_, exSw.take 2, exSw.drop 3, rfl, rfl⟩
+  · exact ⟨_, exSw.take 3, exSw.drop 4, rfl, rfl⟩
 
 end AgVerif.C11
